@@ -141,6 +141,8 @@ fn run_history(out: &mut dyn Write, line: &str) {
     // The caller's own call (index 0) panics with a payload whose destructor panics as well: the
     // broadcast then leaves by unwinding, which must still happen only after every call is over.
     let bomb = c.u64("bomb", 0) != 0;
+    // The closure handed to the pool owns over-aligned state (a u128 and a cache-padded block).
+    let oalign = c.u64("oalign", 0) != 0;
     let pe_lines: std::sync::Mutex<Vec<String>> = std::sync::Mutex::new(Vec::new());
     let tc_line: std::sync::Mutex<Vec<(usize, usize)>> = std::sync::Mutex::new(Vec::new());
     {
@@ -210,6 +212,22 @@ fn run_history(out: &mut dyn Write, line: &str) {
                 }
                 token(b, index)
             };
+            let key: u128 = ((seed as u128) << 64) | (b as u128) | (1u128 << 127);
+            let pad = Padded { v: [token(b, 0), !token(b, 0), seed, b as u64, 1, 2, 3, 4] };
+            let inner_task = task;
+            let task_oa = move |index: usize| -> u64 {
+                let task = inner_task;
+                {
+                    let k = unsafe { std::ptr::read_volatile(&key) };
+                    let p0 = unsafe { std::ptr::read_volatile(&pad.v[0]) };
+                    let p1 = unsafe { std::ptr::read_volatile(&pad.v[1]) };
+                    if k != (((seed as u128) << 64) | (b as u128) | (1u128 << 127)) || p0 != token(b, 0) || p1 != !token(b, 0) {
+                        online_violation(10, b as u64, index as u64, "task did not see the state that was moved into it");
+                        return 0;
+                    }
+                }
+                task(index)
+            };
             evlog::log(evlog::BCAST_CALL, b as u64, n as u64, 0);
             if par_extend {
                 let mut fresh: Vec<Option<u64>> = Vec::new();
@@ -223,13 +241,8 @@ fn run_history(out: &mut dyn Write, line: &str) {
                     results.push(Some(7)); // pre-existing element must be kept
                 }
                 let pre = results.len();
-                if bomb {
-                    let r = std::panic::catch_unwind(std::panic::AssertUnwindSafe(|| pool.par_extend(results, n, task)));
-                    evlog::log(evlog::BCAST_RETURN, b as u64, n as u64, r.is_err() as u64);
-                } else {
-                    pool.par_extend(results, n, task);
-                    evlog::log(evlog::BCAST_RETURN, b as u64, n as u64, 0);
-                }
+                let unwound = if oalign { do_par_extend(&pool, results, n, bomb, task_oa) } else { do_par_extend(&pool, results, n, bomb, task) };
+                evlog::log(evlog::BCAST_RETURN, b as u64, n as u64, unwound as u64);
                 let shown: Vec<String> = results[pre..]
                     .iter()
                     .map(|r| match r {
@@ -255,19 +268,8 @@ fn run_history(out: &mut dyn Write, line: &str) {
                 }
                 pe_lines.lock().unwrap().push(format!("PE {} {}", b, shown.join(",")));
             } else {
-                if bomb {
-                    let r = std::panic::catch_unwind(std::panic::AssertUnwindSafe(|| {
-                        pool.broadcast(n, |i| {
-                            task(i);
-                        })
-                    }));
-                    evlog::log(evlog::BCAST_RETURN, b as u64, n as u64, r.is_err() as u64);
-                } else {
-                    pool.broadcast(n, |i| {
-                        task(i);
-                    });
-                    evlog::log(evlog::BCAST_RETURN, b as u64, n as u64, 0);
-                }
+                let unwound = if oalign { do_broadcast(&pool, n, bomb, task_oa) } else { do_broadcast(&pool, n, bomb, task) };
+                evlog::log(evlog::BCAST_RETURN, b as u64, n as u64, unwound as u64);
             }
             // Everything the calls wrote must be visible now.
             for index in 0..=n {
@@ -353,6 +355,40 @@ fn run_history(out: &mut dyn Write, line: &str) {
     }
     let _ = writeln!(out, "END {id}");
     let _ = out.flush();
+}
+
+/// `par_extend` with the given task; with `catch`, an unwinding exit is caught and reported.
+fn do_par_extend<F: Fn(usize) -> u64 + Sync>(pool: &Pool, results: &mut Vec<Option<u64>>, n: usize, catch: bool, task: F) -> bool {
+    if catch {
+        std::panic::catch_unwind(std::panic::AssertUnwindSafe(|| pool.par_extend(results, n, task))).is_err()
+    } else {
+        pool.par_extend(results, n, task);
+        false
+    }
+}
+
+/// `broadcast` with a closure that owns the given task.
+fn do_broadcast<F: Fn(usize) -> u64 + Sync>(pool: &Pool, n: usize, catch: bool, task: F) -> bool {
+    if catch {
+        std::panic::catch_unwind(std::panic::AssertUnwindSafe(|| {
+            pool.broadcast(n, move |i| {
+                task(i);
+            })
+        }))
+        .is_err()
+    } else {
+        pool.broadcast(n, move |i| {
+            task(i);
+        });
+        false
+    }
+}
+
+/// Over-aligned closure state.
+#[repr(align(64))]
+#[derive(Clone, Copy)]
+struct Padded {
+    v: [u64; 8],
 }
 
 /// Panic payload whose destructor panics (unless the thread is already unwinding).
